@@ -1,8 +1,90 @@
 import NetaddrVerif.Model.Proto
-/-! Driver ops of property C08 (stub: filled in by the property's model). -/
-namespace NV.Driver.C08
-open NV NV.Proto
+import NetaddrVerif.Model.Eui
+/-! Driver ops of property C08 (EUI text, constructor, word access, derived identifiers).
 
-def handle (_op : String) (_args : List String) : Option String := none
+Dialect token: a built-in class name (looked up in `Gen.macDialects` / `Gen.eui64Dialects`) or
+`D,<word_size>,<num_words>,<hex of word_sep>,<pad>,<U|L>` for a user subclass.
+Errors are printed as `!` (the property does not name exception classes). -/
+namespace NV.Driver.C08
+open NV NV.Proto NV.Gen
+
+def parseDialect (tok : String) : Option Dialect :=
+  match tok.splitOn "," with
+  | ["D", ws, nw, sep, pad, up] => do
+    let sep ← (hexBytes sep.toList).map utf8Decode
+    pure ⟨"user", ← ws.toNat?, ← nw.toNat?, sep, ← pad.toNat?, up == "U"⟩
+  | [name] => (macDialects ++ eui64Dialects).find? (fun d => d.name == name)
+  | _ => none
+
+def showR {α} (f : α → String) : R α → String
+  | .ok a => f a
+  | .error _ => "!"
+
+def showNats (xs : List Nat) : String := showList (xs.map toString)
+
+def showBytes (bs : List Nat) : String :=
+  "b:" ++ String.ofList (bs.flatMap (fun b => [hexOfNat (b / 16), hexOfNat (b % 16)]))
+
+def showVV (p : Nat × Nat) : String := s!"{p.1}:{p.2}"
+
+def parseOptInt (tok : String) : Option (Option Int) :=
+  if tok == "-" then some none else (parseInt tok).map some
+
+def parseAddrArg (tok : String) : Option Eui.AddrArg :=
+  if tok.startsWith "s:" then (parseStr tok).map .str else (parseInt tok).map .int
+
+def parseOptStr (tok : String) : Option (Option (List Char)) :=
+  if tok == "-" then some none else (parseStr tok).map some
+
+def handle (op : String) (args : List String) : Option String :=
+  match op, args with
+  | "eui_parse", [addr, ver] => do
+    let a ← parseAddrArg addr
+    let v ← parseOptInt ver
+    pure (showR showVV (Eui.ofAny a v))
+  | "eui_print", [ver, d, v] => do
+    let _ver ← ver.toNat?; let d ← parseDialect d; let v ← v.toNat?
+    pure (showR showStr (Eui.intToStr d v))
+  | "eui_rt", [ver, d, v] => do
+    let ver ← ver.toNat?; let d ← parseDialect d; let v ← v.toNat?
+    match Eui.intToStr d v with
+    | .error _ => pure "!"
+    | .ok s =>
+      pure (" ".intercalate [showStr s, showR showVV (Eui.ofAny (.str s) none),
+        showR showVV (Eui.ofAny (.str s) (some ver))])
+  | "eui_acc", [ver, v, sep] => do
+    let ver ← ver.toNat?; let v ← v.toNat?; let sep ← parseOptStr sep
+    pure (" ".intercalate [showR showNats (Eui.words ver v), showR showBytes (Eui.packed ver v),
+      showR showStr (Eui.bits ver v sep), showR showStr (Codec.intToBin v (Eui.widthOf ver)),
+      showR showStr (Eui.ei ver v), showR toString (Eui.oui ver v)])
+  | "eui_iab", [v] => do
+    let v ← v.toNat?
+    pure (showBool (Eui.isIab v) ++ " " ++ showR showOptNat (Eui.iab v))
+  | "iab_split", [e, strict] => do
+    let e ← e.toNat?
+    pure (showR showVV (Eui.splitIabMac e (strict == "T")))
+  | "eui_get", [d, v, idx] => do
+    let d ← parseDialect d; let v ← v.toNat?
+    match idx.splitOn ";" with
+    | ["i", i] => do
+      let i ← parseInt i
+      pure (showR toString (Eui.getIdx v d i))
+    | ["s", a, b, c] => do
+      pure (showR showNats (Eui.getSlice v d (← parseOptInt a) (← parseOptInt b) (← parseOptInt c)))
+    | _ => none
+  | "eui_set", [d, v, idx, val] => do
+    let d ← parseDialect d; let v ← v.toNat?
+    pure (showR toString (Eui.setItem v d (← parseInt idx) (← parseInt val)))
+  | "eui_derive", [ver, v, pfx] => do
+    let ver ← ver.toNat?; let v ← v.toNat?; let pfx ← pfx.toNat?
+    pure (" ".intercalate [showR showVV (Eui.eui64 ver v), showR showVV (Eui.modifiedEui64 ver v),
+      showR toString (Eui.ipv6 ver v pfx), showR toString (Eui.ipv6LinkLocal ver v)])
+  | "eui_cmp", [ver1, v1, ver2, v2] => do
+    let a := Eui.key (← ver1.toNat?) (← v1.toNat?)
+    let b := Eui.key (← ver2.toNat?) (← v2.toNat?)
+    let c := tupleCmp a b
+    pure (" ".intercalate [showBool (c == .eq), showBool (c != .eq), showBool (c == .lt), showBool (c != .gt),
+      showBool (c == .gt), showBool (c != .lt), if c == .eq then "T" else "-"])
+  | _, _ => none
 
 end NV.Driver.C08
